@@ -443,7 +443,7 @@ func readInt(n int, b []byte) ([]byte, uint64, error) {
 	nn := uint64(0)
 
 	for i := 1; i < len(b); i++ {
-		if shift := (i - 1) * 7; shift >= 64 {
+		if shift := (i - 1) * 7; shift >= 63 {
 			return b, 0, ErrIntOverflow
 		} else {
 			nn |= uint64(b[i]&127) << shift
